@@ -144,6 +144,9 @@ def native_checks(run, seeds):
             run.native_runs += 1
             pr, _ = sklearn_native.fit_problems(seed, rows, ns, k)
             problems += pr
+        run.native_runs += 1
+        pr, _ = sklearn_native.fit_with_failing_optimiser(seed)
+        problems += pr
         # the data set on which the unfixed fit died (zero controls, 6 rows)
         import numpy as np
 
